@@ -18,10 +18,11 @@ ASSUMPTIONS = ["oracle hedmon/oracle/schema_xml.py reads the bundled XML with xm
                "extension words (Zzqext, Qqmore) are not schema terms in any bundled schema"]
 MIN_MONITOR_EVALS = {"same-node": 5000, "forms": 5000, "suffix-verbatim": 2000, "inverse-idempotent": 5000,
                      "bulk-convert": 1000, "generated-schema-node": 500, "entry-of-this-schema": 5000,
-                     "interleaved-versions": 500, "placeholder-child-lookup": 500, "respelled-object": 1000}
+                     "interleaved-versions": 500, "placeholder-child-lookup": 500, "respelled-object": 1000, "rebased-object": 1000}
 WATCHDOG_S = {"quick": 900, "thorough": 3600}
-VALUES = ["/3", "/3 s", "/Abc-1", "/XyZ 1", "/#", "/7.5 mV"]
-EXTS = ["/Zzqext", "/Zzqext/Qqmore", "/ZZqExt"]
+# (the last ones: several levels, with letters whose case-folded form is longer than the letter)
+VALUES = ["/3", "/3 s", "/Abc-1", "/XyZ 1", "/#", "/7.5 mV", "/Stra\u00dfe/Nummer5", "/\ufb01ne/x 1/y"]
+EXTS = ["/Zzqext", "/Zzqext/Qqmore", "/ZZqExt", "/Ma\u00df/Qqmore", "/Zzqext/Wei\u00df/Qqmore"]
 
 
 def shards(tier, seed):
@@ -138,6 +139,17 @@ def check_node(schema, ns, node, rng, ncases, rec, label, entries, bulk):
                             rec.violation("a tag object re-spelled through its setter still names its former node", case)
                     except Exception as ex:      # noqa
                         rec.violation(f"re-spelling a tag object raised {type(ex).__name__}", case)
+                if node.parent is not None and not suffix and rng.random() < 0.06:
+                    # the same, through the setter that swaps the node and keeps prefix and suffix (Def <-> Def-expand)
+                    rec.mon("rebased-object")
+                    try:
+                        t2 = HedTag(text, schema)
+                        t2.short_base_tag = node.parent.name
+                        if (t2.long_tag != ns + node.parent.path or t2.short_tag != ns + node.parent.name
+                                or t2.base_tag != node.parent.path or not t2.tag_exists_in_schema()):
+                            rec.violation("a tag object re-based through its setter is not identified as the new node", case)
+                    except Exception as ex:      # noqa
+                        rec.violation(f"re-basing a tag object raised {type(ex).__name__}", case)
                 if rng.random() < 0.0005:
                     rec.sample(case)
 
